@@ -22,7 +22,7 @@ from vf import common, gen, simgen
 PROP = 'C11'
 NEEDS_JIT = True
 TIMEOUT = {'quick': 2400, 'thorough': 3500}
-MAX_PARALLEL = 6         # every run spawns up to 16 pool workers itself
+MAX_PARALLEL = 8         # every run spawns up to 16 pool workers itself
 RULE = ("3-4 distinct sources x 2-3 distinct frequencies on 8^3 grids "
         "(isotropic / VTI / triaxial), forward + misfit + gradient + jvec; "
         "max_workers in {1,2,3,4,7,16} (thorough: 1..16), tqdm backend on/off,"
@@ -45,8 +45,8 @@ SCHED = {'log': None, 'lock': None, 'delays': None}
 
 def plan(tier, seed):
     if tier == 'quick':
-        return [{'id': f'r{k}', 'k': k, 'n': 4} for k in range(6)]
-    return [{'id': f'r{k}', 'k': k, 'n': 10} for k in range(30)]
+        return [{'id': f'r{k}', 'k': k, 'n': 1} for k in range(8)]
+    return [{'id': f'r{k}', 'k': k, 'n': 4} for k in range(36)]
 
 
 # ------------------------------------------------------------ worker side
